@@ -909,8 +909,7 @@ def gen_code_for_conv(to_type, node, code, codegen):
         # used as a value) is a type error in the source program
         raise CompileError(
             EC.TYPE_MISMATCH,
-            f'Type mismatch: expected {to_type.name.upper()}, got '
-            f'{node.type.name.upper()}',
+            f'Type mismatch: expected {to_type}, got {node.type}',
             node=node)
     if node.type != to_type:
         from_char = node.type.type_char
